@@ -152,6 +152,10 @@ def main(run):
                         for n in (1, 2, 7):
                             for cont in (list, tuple, collections.deque):
                                 xs = [rand_x() for _ in range(n)]
+                                if n > 1 and rnd.random() < 0.5:
+                                    # first row all Python ints, later rows with fractional parts (dtype promotion over the batch)
+                                    xs[0] = {f: int(v) for f, v in xs[0].items()}
+                                    xs[1:] = [{f: v + 0.5 for f, v in xi.items()} for xi in xs[1:]]
                                 if use_names:
                                     xs = [{f: xi[f] for f in rnd.sample(feats, len(feats))} for xi in xs]
                                 exps = [canon_row(g([xi[f] for f in cols])[:(c if shape_kind == "(n,c)" else 1)]) for xi in xs]
